@@ -69,6 +69,131 @@ def is_expansion(prog, span):
     return bool(s) and not s[0].startswith("falcon-rust/")
 
 
+DRAW_RX = None
+
+
+def draw_sites(S, ids):
+    """{(function, callee, source line)} of calls to generator methods in the local functions `ids`, restricted to blocks that
+    are reachable from the entry when a SwitchInt on a compile-time constant (a constant operand, or a local assigned a
+    constant in the same block) follows only the matching target"""
+    import re
+    from fv.facts import const_of
+    rx = re.compile(r"(RngCore|Rng|SeedableRng|Distribution|rngs::|rand::|rand_core::|rand_chacha::).*::(next_u32|next_u64|fill_bytes|try_fill_bytes|fill|try_fill|gen|gen_range|gen_bool|gen_ratio|sample|sample_iter|random|from_entropy|from_rng)\b")
+    out = set()
+    prog = S.prog
+    for iid in ids:
+        inst = prog.inst[iid]
+        if not inst.local or inst.body is None:
+            continue
+        blocks = inst.body["blocks"]
+        body = S.ctx.body(inst)
+        reach, todo = set(), [0]
+        while todo:
+            bi = todo.pop()
+            if bi in reach or bi is None:
+                continue
+            reach.add(bi)
+            bb = blocks[bi]
+            tk, tv = kind_of(bb["terminator"]["kind"])
+            succ = None
+            if tk == "SwitchInt":
+                d = tv["discr"]
+                cv = const_of(prog, d)
+                if cv is None:
+                    dk, dv = kind_of(d)
+                    if dk in ("Move", "Copy") and not dv["projection"]:
+                        for stt in reversed(bb["statements"]):
+                            k, v = kind_of(stt["kind"])
+                            if k == "Assign" and v[0]["local"] == dv["local"] and not v[0]["projection"]:
+                                rk, rv = kind_of(v[1])
+                                if rk == "Use":
+                                    cv = const_of(prog, rv[0] if isinstance(rv, list) else rv)
+                                break
+                if cv is not None and isinstance(cv[1], (int, bool)):
+                    val = int(cv[1])
+                    tg = [t for (x, t) in tv["targets"]["branches"] if x == val]
+                    succ = tg[:1] if tg else [tv["targets"]["otherwise"]]
+            if succ is None:
+                succ = body.succ[bi]
+            todo.extend(succ)
+        for e in inst.edges:
+            if e["k"] in ("call", "virtual") and e.get("bb") in reach:
+                nm = prog.inst[e["to"]].name if e.get("to") is not None else (e.get("name") or "")
+                if rx.search(nm):
+                    out.add((inst.name, nm, str(prog.span_str(blocks[e["bb"]]["terminator"]["span"]))))
+    return out
+
+
+def abstract_draws(S):
+    """abstract run of ntru_gen (n = 512, 1024) with a labelled generator parameter -> (draws, number of draws seen inside
+    sampler_z alone, set of draw sites). Compositional: (a) sampler_z, run on its own with an arbitrary centre/width, draws
+    from nothing but its generator parameter; (b) in ntru_gen the first call of sampler_z with given float arguments is
+    analysed in place and later calls with the same arguments reuse that result range and only record which generator they
+    are handed (the generator is opaque, so this is memoisation), and nothing outside sampler_z draws from any other
+    generator."""
+    import re
+    ctx, prog = S.ctx, S.prog
+    inst = S.find("math::ntru_gen")
+    draws, sites = [], set()
+
+    def origin_of(stt, p):
+        try:
+            tgt = p
+            while type(tgt) is Pt:
+                tgt = S.E.load(stt, tgt.key, tgt.proj)
+            return tgt.d.get("origin") if type(tgt) is Md and tgt.kind == "rng" else None
+        except Exception:
+            return None
+
+    def obs2(ev, **kw):
+        if ctx.quiet:
+            return
+        if ev == "entropy":
+            r = kw["rng"]
+            draws.append((kw["frame"].inst.name, r.d.get("origin") if type(r) is Md else None))
+            sites.add((kw["frame"].inst.name, str(kw["frame"].body.span_of(kw["bb"])), kw.get("what")))
+    ctx.observers.append(obs2)
+    sz = [i for i in prog.inst if i.local and i.name.endswith("samplerz::sampler_z") and i.body is not None]
+    n_sz = 0
+    if sz:
+        st = St()
+        rng = S.cell(st, "rng", Md("rng", {"origin": "param", "site": None}), mut=True)
+        S.run(sz[0], [Fl(-1e6, 1e6, False), Fl(1.0, 2.0, False), Fl(1.0, 2.0, False), rng], st)
+        n_sz = len(draws)
+        cache = {}
+        busy = [False]
+
+        def m_sampler_z(E, stt, fr, bi, callee, args, dest_ty):
+            if busy[0]:
+                return None
+            key = tuple((a.lo, a.hi) for a in args if type(a) is Fl)
+            rngs = [a for a in args if type(a) is Pt]
+            if key in cache and rngs:
+                if not ctx.quiet:
+                    draws.append((callee.name + " (call in " + fr.inst.name + ")", origin_of(stt, rngs[-1])))
+                lo, hi = cache[key]
+                return [(ctx.mk_int(stt, lo, hi, dest_ty), stt)]
+            busy[0] = True
+            try:
+                outs = E.run(callee, args, stt, fr, bi)
+            finally:
+                busy[0] = False
+            if len(outs) == 1 and type(outs[0][0]) is I:
+                cache[key] = outs[0][1].itv[outs[0][0].vid]
+            return outs
+        ctx.models.table[:0] = [(re.compile(re.escape(sz[0].name) + "$"), m_sampler_z)]
+        ctx.models.cache.clear()
+    for n in (512, 1024):
+        st = St()
+        rng = S.cell(st, "rng", Md("rng", {"origin": "param", "site": None}), mut=True)
+        S.run(inst, [ctx.const_int(st, n, ctx.usize_ty()), rng], st)
+    if sz:
+        del ctx.models.table[0]
+        ctx.models.cache.clear()
+    ctx.observers.remove(obs2)
+    return draws, n_sz, sites
+
+
 def run(R):
     S = skeleton.session()
     ctx, prog = S.ctx, S.prog
@@ -148,75 +273,32 @@ def run(R):
                 f"ntru_gen calls: {len(ng)}; generator argument is not the from_seed generator", key=f"ntru|{N}")
         other = [e for e in events if e[0] == "entropy"]
         R.check(not other, "C15-seed", site + " (other draws)", "nothing else draws randomness between keygen and ntru_gen", f"extra draws: {other[:3]}", key=f"extra|{N}")
-    # ntru_gen / gen_poly / sampler_z: all draws come from the parameter.  Compositional: (a) sampler_z, run on its own
-    # with an arbitrary centre/width, draws from nothing but its generator parameter; (b) in ntru_gen every call of
-    # sampler_z is handed ntru_gen's own generator parameter (sampler_z is not re-analysed at each of its 4096 call
-    # instances), and nothing outside sampler_z draws from any other generator.
-    inst = S.find("math::ntru_gen")
-    draws = []
-
-    def origin_of(stt, p):
-        try:
-            tgt = p
-            while type(tgt) is Pt:
-                tgt = S.E.load(stt, tgt.key, tgt.proj)
-            return tgt.d.get("origin") if type(tgt) is Md and tgt.kind == "rng" else None
-        except Exception:
-            return None
-
-    def obs2(ev, **kw):
-        if ctx.quiet:
-            return
-        if ev == "entropy":
-            r = kw["rng"]
-            draws.append((kw["frame"].inst.name, r.d.get("origin") if type(r) is Md else None))
-    ctx.observers.append(obs2)
-    sz = [i for i in prog.inst if i.local and i.name.endswith("samplerz::sampler_z") and i.body is not None]
-    if sz:
-        st = St()
-        rng = S.cell(st, "rng", Md("rng", {"origin": "param", "site": None}), mut=True)
-        S.run(sz[0], [Fl(-1e6, 1e6, False), Fl(1.0, 2.0, False), Fl(1.0, 2.0, False), rng], st)
-        n_sz = len(draws)
-        R.floor("abstract draws inside sampler_z", n_sz, 1)
-        # in ntru_gen: the first call with given float arguments is analysed in place (its draws are observed as usual);
-        # later calls with the same arguments reuse that result range and only record which generator they are handed
-        cache = {}
-        busy = [False]
-
-        def m_sampler_z(E, stt, fr, bi, callee, args, dest_ty):
-            if busy[0]:
-                return None
-            key = tuple((a.lo, a.hi) for a in args if type(a) is Fl)
-            rngs = [a for a in args if type(a) is Pt]
-            if key in cache and rngs:
-                if not ctx.quiet:
-                    draws.append((callee.name + " (call in " + fr.inst.name + ")", origin_of(stt, rngs[-1])))
-                lo, hi = cache[key]
-                return [(ctx.mk_int(stt, lo, hi, dest_ty), stt)]
-            busy[0] = True
-            try:
-                outs = E.run(callee, args, stt, fr, bi)
-            finally:
-                busy[0] = False
-            if len(outs) == 1 and type(outs[0][0]) is I:
-                cache[key] = outs[0][1].itv[outs[0][0].vid]
-            return outs
-        import re
-        ctx.models.table[:0] = [(re.compile(re.escape(sz[0].name) + "$"), m_sampler_z)]
-        ctx.models.cache.clear()
-    for n in (512, 1024):
-        st = St()
-        rng = S.cell(st, "rng", Md("rng", {"origin": "param", "site": None}), mut=True)
-        S.run(inst, [ctx.const_int(st, n, ctx.usize_ty()), rng], st)
-    if sz:
-        del ctx.models.table[0]
-        ctx.models.cache.clear()
-    ctx.observers.remove(obs2)
+    # ntru_gen / gen_poly / sampler_z: all draws come from the parameter (see abstract_draws)
+    draws, n_sz, sites_dev = abstract_draws(S)
+    R.floor("abstract draws inside sampler_z", n_sz, 1)
     fns = sorted({d[0] for d in draws})
     bad = [d for d in draws if d[1] != "param"]
     R.check(draws and not bad, "C15-draws", "ntru_gen cone", f"{len(draws)} abstract draws in {fns}, all from the generator parameter",
             f"draws from another generator: {bad[:3]}", key="draws")
     R.floor("functions that draw randomness under ntru_gen", len(fns), 1)
+    # the same seed must give the same key in every build profile: the draw call sites of the key-generation cone that are
+    # reachable once branches on compile-time constants are pruned (`cfg!(debug_assertions)`, the guard of `debug_assert!`)
+    # are the same in the dev MIR (debug assertions on) and in the release MIR (off). A draw inside `debug_assert!(..)`
+    # consumes the seeded stream in one profile only.
+    try:
+        sites = {}
+        for prof, S_ in (("dev", S), ("release", Session("release"))):
+            roots = [S_.prog.find(f"falcon::keygen::<{N}>").id for N in (512, 1024)]
+            seen, _ = effects.cone(S_.prog, roots)
+            sites[prof] = draw_sites(S_, seen)
+        only_dev, only_rel = sorted(sites["dev"] - sites["release"]), sorted(sites["release"] - sites["dev"])
+        R.check(bool(sites["dev"]) and not only_dev and not only_rel, "C15-profile", "keygen cone, dev vs release MIR",
+                f"the same {len(sites['dev'])} draw call site(s) are live with debug assertions on and off",
+                f"draw call sites live in one build profile only — debug assertions on: {only_dev[:3]}; off: {only_rel[:3]} — the seeded stream is consumed differently, so one seed gives different keys in debug and release builds",
+                key="profile")
+        R.floor("live draw call sites in the keygen cone", len(sites["dev"]), 3)
+    except Exception as ex:        # fail closed
+        R.violation("C15-profile", "keygen cone, dev vs release MIR", f"could not analyse the release-profile MIR: {type(ex).__name__}: {ex}", key="profile")
     # (3) no statics, no unsafe
     R.check(not prog.statics, "C15-nostatic", "crate falcon_rust", "defines no `static` item", f"defines statics: {prog.statics}", key="nostatic")
     tls = [(i.name, e["item"]) for i in prog.inst if i.local for e in i.edges if e["k"] == "tls"]
